@@ -224,12 +224,23 @@ impl Nfa {
         match expr.kind() {
             HirKind::Empty => Ok(accept),
 
-            HirKind::Literal(Literal(l)) => Ok(l.iter().rev().fold(accept, |accept, &b| {
-                let s0 = self.new_state(StateKind::Neither);
-                self.push_edge(s0, Test::byte(b), accept);
-                self.push_edge(s0, Other, reject);
-                s0
-            })),
+            HirKind::Literal(Literal(l)) => {
+                // Edge labels must be in the same unit as the ranges of the classes
+                // the literal is compared with: `Class::Unicode` ranges are code
+                // points, so a (UTF-8) literal is walked by code points as well;
+                // otherwise `é` (bytes C3 A9) would never meet `[é-ë]`.  Byte
+                // regexes (unicode disabled) have `Class::Bytes` and stay in bytes.
+                let tests: Vec<Test> = match std::str::from_utf8(l) {
+                    Ok(s) if cfg!(feature = "unicode") => s.chars().map(Test::char).collect(),
+                    _ => l.iter().map(|&b| Test::byte(b)).collect(),
+                };
+                Ok(tests.into_iter().rev().fold(accept, |accept, test| {
+                    let s0 = self.new_state(StateKind::Neither);
+                    self.push_edge(s0, test, accept);
+                    self.push_edge(s0, Other, reject);
+                    s0
+                }))
+            }
 
             HirKind::Class(class) => {
                 match *class {
